@@ -21,6 +21,9 @@ def run(check):
     check.run_rule('C20.R1', lambda c: rule_bind_callsig(c, 'C20.R1'))
     check.run_rule('C20.R2', lambda c: rule_sort_callsigs(c, 'C20.R2'))
     check.run_rule('C20.R3', lambda c: rule_make_up_bounds(c, 'C20.R3'))
+    from ..rules_derived import rule_no_memoisation
+    check.run_rule('C20.R6', lambda c: rule_no_memoisation(c, 'C20.R6', ('support',), 'equal signatures that differ (defaults 1/True/1.0) get the '
+                   'first one\'s function, an earlier result that was altered is handed out again, unhashable defaults raise TypeError'))
     from ..rules_support import rule_future_flags, rule_func_from_sig
     check.run_rule('C20.R5', lambda c: rule_func_from_sig(c, 'C20.R5'))
     check.run_rule('C20.R4', lambda c: rule_future_flags(c, 'C20.R4'))
